@@ -10,12 +10,13 @@ import (
 )
 
 // rulesExtra: rules added after the first round of independently seeded changes.
-//   I6 — an index scans the whole total order (no partial window of Values(), no scan position kept between calls)
-//   T2 — Join is always called ON the store's (verified) log WITH the fetched log, never the other way round;
-//        the store's oplog field is only ever assigned a log freshly built by NewLog
-//   P4 — cached head keys are never deleted outside Drop
-//   B4 — a goroutine started inside a loop does not capture a variable the loop reassigns
-//   B5 — the cache handed to a store is, on every path, the one loaded for that store's own address
+//
+//	I6 — an index scans the whole total order (no partial window of Values(), no scan position kept between calls)
+//	T2 — Join is always called ON the store's (verified) log WITH the fetched log, never the other way round;
+//	     the store's oplog field is only ever assigned a log freshly built by NewLog
+//	P4 — cached head keys are never deleted outside Drop
+//	B4 — a goroutine started inside a loop does not capture a variable the loop reassigns
+//	B5 — the cache handed to a store is, on every path, the one loaded for that store's own address
 func rulesExtra(c *Ctx) {
 	c.ruleI6()
 	c.ruleT2()
@@ -178,6 +179,9 @@ func (c *Ctx) ruleT4() {
 								walk(st.Val, depth+1)
 							}
 						}
+					}
+					if fv, ok := x.X.(*ssa.FreeVar); ok {
+						walk(fv, depth+1) // the list is a captured variable of the enclosing function
 					}
 				case *ssa.FreeVar:
 					// captured cell of the parent
@@ -343,6 +347,12 @@ func (c *Ctx) ruleI6() {
 						continue
 					}
 					for _, r := range *v.Referrers() {
+						// how much is remembered is a scalar of remembered state
+						if call, ok := r.(*ssa.Call); ok {
+							if bi, ok := call.Call.Value.(*ssa.Builtin); ok && bi.Name() == "len" {
+								seeds = append(seeds, call)
+							}
+						}
 						lk, ok := r.(*ssa.Lookup)
 						if !ok || lk.X != v {
 							continue
@@ -402,7 +412,19 @@ func (c *Ctx) ruleI6() {
 					}
 					return false
 				}
+				// the place read from the total order is itself chosen by remembered state
+				eachInstr(f, func(in ssa.Instruction) {
+					ia, ok := in.(*ssa.IndexAddr)
+					if !ok || viol || !d[ia.X] || !ds[ia.Index] {
+						return
+					}
+					viol = true
+					c.bad("I6", fk+"→remembered-position", bestPos(ia), "the scan over the total order starts at (or is positioned by) something the index remembers from earlier calls: the order is not append-only under merges — a concurrent branch lands in the middle and shifts what follows — so entries before that position are never looked at again and what was recorded about the others is stale")
+				})
 				for _, b := range f.Blocks {
+					if viol {
+						break
+					}
 					if len(b.Instrs) == 0 {
 						continue
 					}
